@@ -160,7 +160,8 @@ ObsEnd(o, rec) ==
                    <<~o.cfg.fail_fast \/ o.tripped \/ \A s \in expectedScen : o.at[s].nstarted > 0,
                      "C08", "fail-fast-run-stopped-although-nothing-failed-finally">>,
                    <<o.tripped \/ \A s \in DOMAIN o.at : o.at[s].ph # "wait", "C05", "failed-attempt-with-budget-left-never-retried">>,
-                   <<\A s \in DOMAIN o.at : o.at[s].ph # "run", "C08", "attempt-never-finished">>})
+                   <<\A s \in DOMAIN o.at : o.at[s].ph # "run", "C08", "attempt-never-finished">>,
+                   <<\A s \in DOMAIN o.at : o.at[s].ph # "run", "C02", "attempt-without-Finished-event">>})
        EXCEPT !.ph = "ended", !.stats.schedDiverged = IF rec.sched_diverged THEN 1 ELSE 0]
 
 ---------------------------------------------------------------------------
